@@ -348,3 +348,53 @@ def cross_config_rules(facts_by_cfg):
         obs.append(Ob("xcfg:" + k, same, "present in %d configurations" % len(per),
                       "X:a constant with the same name has the same value in every configuration", k))
     return obs
+
+
+# ---------------------------------------------------------------------------
+# L-rules: the split (head + tail) constants of the bundled libm pow (C14, no_std compact builds)
+def libm_rules(facts):
+    """powf/powd compute log2(x) and 2^y in head+tail arithmetic.  Their constants are definitions: LG2 = ln 2, CP = 2/(3 ln 2),
+    IVLN2 = 1/ln 2, DP = log2(1.5); each single constant must be within one unit in the last place of its definition, and each
+    head+tail pair must carry at least 14 bits beyond the working precision (the tails exist for exactly that; the tree's pairs
+    carry 16 to 34).  A tail that lost its low bits makes pow(10, k) inexact for some table-free power of ten."""
+    import struct
+    from decimal import Decimal, getcontext
+    from fractions import Fraction
+    getcontext().prec = 120
+    ln2 = Decimal(2).ln()
+    defs = {"LG2": ("ln 2", ln2), "CP": ("2/(3 ln 2)", Decimal(2) / (3 * ln2)), "IVLN2": ("1/ln 2", 1 / ln2), "DP": ("log2(1.5)", (Decimal(3) / 2).ln() / ln2)}
+
+    def val(c):
+        b = int(c["fbits"])
+        x = struct.unpack("<d", struct.pack("<Q", b))[0] if c["w"] == 64 else struct.unpack("<f", struct.pack("<I", b))[0]
+        return Fraction(x)
+    obs = []
+    for fn, p in (("powf", 24), ("powd", 53)):
+        for name, (text, d) in defs.items():
+            D = Fraction(d)
+            site = "src/libm.rs: %s :: %s" % (fn, name)
+            try:
+                if name == "DP":
+                    h, l, full = val(facts.consts["libm::%s::DP_H" % fn][1]), val(facts.consts["libm::%s::DP_L" % fn][1]), None
+                else:
+                    h, l = val(facts.consts["libm::%s::%s_H" % (fn, name)]), val(facts.consts["libm::%s::%s_L" % (fn, name)])
+                    full = val(facts.consts["libm::%s::%s" % (fn, name)])
+            except (KeyError, IndexError, TypeError):
+                obs.append(Ob("libm::%s::%s present" % (fn, name), False, "constant not found in the compiler's facts", "L:split constants of the bundled pow are extracted", site))
+                continue
+            e_pair = abs(h + l - D) / D
+            obs.append(Ob("libm::%s::%s_H + %s_L" % (fn, name, name), e_pair * (1 << (p + 14)) <= 1,
+                          "relative distance from %s: 2^%.1f; required <= 2^-%d" % (text, _log2(e_pair), p + 14),
+                          "L:head + tail of a split constant equals its definition to at least 14 bits beyond the working precision", site))
+            if full is not None:
+                e1 = abs(full - D) / D
+                obs.append(Ob("libm::%s::%s" % (fn, name), e1 * (1 << p) <= 1, "relative distance from %s: 2^%.1f; required <= 2^-%d" % (text, _log2(e1), p),
+                              "L:a libm constant is within one unit in the last place of its definition", site))
+    return obs
+
+
+def _log2(fr):
+    import math
+    if fr == 0:
+        return float("-inf")
+    return math.log2(fr.numerator) - math.log2(fr.denominator)
